@@ -155,6 +155,8 @@ def _gen_sources(rng, tier):
                 case["conn"] = {k: v for k, v in case["conn"].items() if k not in ("tls", "alpn")}
             if any(st[0] in ("reset", "fail_write_at", "terminate", "pause") for st in case.get("client", [])):
                 continue  # injected faults race with in-flight work differently on the two runtimes; C03/C07/C08 judge them per worker
+            if any((st[0] == "turns" and st[1] > 0) or (st[0] == "feed_split" and len(st) > 3) for st in case.get("client", [])):
+                continue  # "k scheduler turns later" is not the same instant on two different schedulers: not "the same timing"
             t = case.get("truth") or {}
             if name == "c06" and any(m not in ("after", "slow") for m in t.get("modes", [])):
                 continue  # responding before the body has been read races the reader (C06 ND)
